@@ -1627,8 +1627,201 @@ def check_scoping(ctx: Ctx):
                    bad == 0, detail=f"{len(cases)} programs, {bad} differing")
 
 
+# ---- operator dispatch on class hierarchies -------------------------------------------------------
+# `__op__` / `__rop__` defined at ANY level (own body, parent, grandparent, mixin, alias of an inherited function
+# object), operands in both orders, every operator; the MRO tables handed to the Lean model are read off the
+# real classes (defined natively by CPython in the harness process).
+
+HIER_SHAPES = {
+    "chain": [("A", []), ("B", ["A"]), ("C", ["B"])],
+    "mixin-first": [("A", []), ("M", []), ("C", ["M", "A"])],
+    "mixin-last": [("A", []), ("M", []), ("C", ["A", "M"])],
+    "chain-mixin": [("A", []), ("B", ["A"]), ("M", []), ("C", ["M", "B"])],
+    "diamond": [("A", []), ("B", ["A"]), ("M", ["A"]), ("C", ["B", "M"])],
+}
+
+
+def hier_case(k, shape, methods, left, right, sym, nm):
+    """methods: {(class letter, 'op'|'rop'): 'n' | 'v' | 'alias'}.  Returns (case, lean request tail) or None"""
+    op, rop = f"__{nm}__", f"__r{nm}__"
+    src, mid = "", k * 100
+    for cls, bases in HIER_SHAPES[shape]:
+        body = ""
+        for role, name in (("op", op), ("rop", rop)):
+            how = methods.get((cls, role))
+            if how in ("n", "v"):
+                mid += 1
+                ret = "NotImplemented" if how == "n" else str(mid)
+                body += f"    def {name}(self, o, _i={mid}):\n        note('m{mid}')\n        return {ret}\n\n"
+            elif how == "alias" and bases:
+                body += f"    {name} = {bases[-1]}{k}.{name}\n\n"
+        src += f"class {cls}{k}" + (f"({', '.join(b + str(k) for b in bases)})" if bases else "") + ":\n" + (body or "    pass\n\n") + "\n"
+    ns = {"note": lambda s_: None}
+    try:
+        exec(src, ns)      # plain CPython classes (no cohdl involved): only to read the MROs
+    except (AttributeError, TypeError):
+        return None        # alias of a method no ancestor has / inconsistent MRO
+    L, R = ns[f"{left}{k}"], ns[f"{right}{k}"]
+    for c in set(L.__mro__[:-1]) | set(R.__mro__[:-1]):
+        for name in (op, rop):
+            if name in vars(c) and not inspect.isfunction(vars(c)[name]):
+                return None    # alias of something found on the metaclass (`A.__or__` is `type.__or__`): not a method definition
+
+    def table(cls):
+        rows = []
+        for c in cls.__mro__[:-1]:
+            own = []
+            for num, name in ((1, op), (2, rop)):
+                if name in vars(c):
+                    own.append(f"{num}:{vars(c)[name].__defaults__[0]}")
+            rows.append(",".join(own) or "-")
+        return "/".join(rows)
+
+    results = []
+    for c in set(L.__mro__[:-1]) | set(R.__mro__[:-1]):
+        for name in (op, rop):
+            if name in vars(c):
+                f = vars(c)[name]
+                i = f.__defaults__[0]
+                r = "n" if "NotImplemented" in f.__code__.co_names else f"v{i}"
+                if f"{i}:{r}" not in results:
+                    results.append(f"{i}:{r}")
+
+    def found(cls, name):
+        for c in cls.__mro__[:-1]:
+            if name in vars(c):
+                return vars(c)[name].__defaults__[0]
+        return None
+    lean = f"{int(L is R)} {int(L is not R and issubclass(R, L))} 1 2 {table(L)} {table(R)} {','.join(sorted(results)) or '-'}"
+    case = {"defs": src, "body": [f"record({left}{k}() {sym} {right}{k}())"], "solo": False}
+    return case, lean, found(L, op), found(R, rop)
+
+
+def _hier_token(r, side, lid, rid):
+    x = r[side]
+    calls = "".join("l" if t == f"m{lid}" else ("r" if t == f"m{rid}" else "?") for t in x[2] if t.startswith("m")) or "-"
+    v = val_of(r, side)
+    if v == "err":
+        return f"{calls} err"
+    if isinstance(v, list) and len(v) == 2 and v[0] == "int":
+        return f"{calls} v{v[1]}"
+    return f"{calls} ?{repr(v)[:30]}"
+
+
+def hier_configs(ctx):
+    """systematic part (reflected method defined in every subset of the classes, left method value / NotImplemented,
+    every operand pair incl. reversed) + random part (NotImplemented reflected methods, aliases, forward methods at
+    lower levels)"""
+    rng = ctx.rng
+    out = []
+    for shape, classes in HIER_SHAPES.items():
+        letters = [c for c, _ in classes]
+        pairs = [("A", "C"), ("C", "A")] + ([("A", "B"), ("B", "C")] if "B" in letters else []) + ([("M", "C")] if "M" in letters else [])
+        for mask in range(1 << len(letters)):
+            for lop in "nv":
+                methods = {("A", "op"): lop}
+                for i, c in enumerate(letters):
+                    if mask >> i & 1:
+                        methods[(c, "rop")] = "v"
+                for pr in pairs:
+                    if ctx.quick and rng.random() < 0.5 and not (pr == ("A", "C") and lop == "v"):
+                        continue
+                    out.append((shape, dict(methods), pr))
+    for _ in range(ctx.scale(80, 600)):
+        shape = rng.choice(sorted(HIER_SHAPES))
+        letters = [c for c, _ in HIER_SHAPES[shape]]
+        methods = {}
+        for c in letters:
+            for role in ("op", "rop"):
+                how = rng.choice([None, None, "v", "v", "n", "alias"])
+                if how:
+                    methods[(c, role)] = how
+        out.append((shape, methods, (rng.choice(letters), rng.choice(letters))))
+    return out
+
+
+def check_hierarchy(ctx: Ctx):
+    cases, meta, reqs = [], [], []
+    for k, (shape, methods, (left, right)) in enumerate(hier_configs(ctx), start=1):
+        sym, nm = BIN_OPS[k % len(BIN_OPS)]
+        hc = hier_case(k, shape, methods, left, right, sym, nm)
+        if hc is None:
+            continue
+        case, lean, lid, rid = hc
+        cases.append(case)
+        meta.append((shape, methods, left, right, sym, lid, rid))
+        reqs.append(lean)
+    mirror = lean_io.query("C10", ["hier " + q for q in reqs])
+    spec = lean_io.query("C10", ["cpyhier " + q for q in reqs])
+    for c, mo in zip(cases, mirror):
+        c["solo"] = " err " in mo + " "
+    res = run_cases(cases, chunk=30)
+    bad_spec = bad_model = viol = 0
+    for case, (shape, methods, left, right, sym, lid, rid), mo, sp, r in zip(cases, meta, mirror, spec, res):
+        mo, prio = mo.rsplit(" ", 1)
+        if sym == "|" and lid is None and prio == "0":
+            mo = "- err"      # `type.__or__` found through the metaclass (see check_binop)
+        py, co = _hier_token(r, "py", lid, rid), _hier_token(r, "co", lid, rid)
+        where = ",".join(f"{c}.{'__op__' if role == 'op' else '__rop__'}={how}" for (c, role), how in sorted(methods.items()))
+        ctx.case(key=("hier", shape, where, left, right, sym), nontrivial=prio == "1" or left != "A", kind=f"hierarchy:{shape}:prio={prio}",
+                 sample={"shape": shape, "methods": where, "expr": case["body"][0], "cpython": py, "tracer": co} if prio == "1" else None)
+        if py != sp:
+            bad_spec += 1
+            ctx.report("spec:cpyHier", f"Lean cpyHier differs from real CPython: {shape} [{where}] `{left}() {sym} {right}()`: spec `{sp}`, CPython `{py}`",
+                       {"theorem": "C10.dispatch_hier_equiv", "source": make_program(case["defs"], case["body"])}, no_failing_input=True)
+        v = verdict(r)
+        if v == "diff":
+            viol += 1
+            inherited = prio == "1" and (right, "rop") not in methods
+            sig = "binop-hierarchy:inherited-reflected-method-has-no-priority" if inherited else f"binop-hierarchy:{shape}:{where}:{left}{sym}{right}"
+            report_diff(ctx, sig, f"{shape} hierarchy with [{where}]: `{left}() {sym} {right}()` is `{py}` in CPython (calls, value) and `{co}` in the tracer"
+                        + (" - the right operand's class INHERITS a reflected method different from the left class's, CPython asks it first" if inherited else ""),
+                        case, r)
+        elif co != mo:
+            bad_model += 1
+            ctx.report("mirror:dispatchHier", f"Lean dispatchHier differs from the tracer: {shape} [{where}] `{left}() {sym} {right}()`: model `{mo}`, tracer `{co}`, CPython `{py}`",
+                       {"correspondence": "dispatchHier = ast.BinOp dispatch on class hierarchies", "source": make_program(case["defs"], case["body"])}, no_failing_input=True)
+    n = len(cases)
+    ctx.obligation("spec validation: Lean cpyHier (MRO lookup + cpyBinOp) = real CPython on class hierarchies (chain depth 3, mixin first/last, chain+mixin, diamond), methods at every level, both operand orders, all operators",
+                   bad_spec == 0, detail=f"{n} hierarchies, {bad_spec} differences")
+    ctx.obligation("correspondence: tracer BinOp dispatch = Lean dispatchHier (priority decided by MRO lookup + identity) on the same hierarchies",
+                   bad_model == 0 and viol == 0, detail=f"{n} hierarchies, {bad_model} model differences, {viol} property failures")
+
+
+def snip_hierarchy(rng, u):
+    """the same hierarchies inside the generated-program stream (several expressions over one hierarchy)"""
+    for _ in range(20):
+        shape = rng.choice(sorted(HIER_SHAPES))
+        letters = [c for c, _ in HIER_SHAPES[shape]]
+        methods = {("A", "op"): rng.choice("vvn")}
+        for c in letters:
+            for role in ("op", "rop"):
+                how = rng.choice([None, None, "v", "v", "n", "alias"])
+                if how and (c, role) not in methods:
+                    methods[(c, role)] = how
+        sym, nm = rng.choice(BIN_OPS)
+        hc = hier_case(u, shape, methods, "A", "C", sym, nm)
+        if hc is None:
+            continue
+        defs = hc[0]["defs"]
+        ns = {"note": lambda s_: None}
+        exec(defs, ns)
+        body = []
+        for left in letters:
+            for right in letters:
+                try:       # keep the expressions CPython can evaluate (a TypeError would end the program)
+                    eval(f"{left}{u}() {sym} {right}{u}()", ns)
+                except TypeError:
+                    continue
+                body.append(f"record({left}{u}() {sym} {right}{u}())")
+        if body:
+            rng.shuffle(body)
+            return {"family": "hierarchy:" + shape, "defs": defs, "body": body[:8]}
+    return snip_operators(rng, u)
+
+
 SNIPPETS = [snip_call, snip_call, snip_call, snip_closure, snip_class, snip_operators, snip_containers, snip_control,
-            snip_comprehension, snip_comprehension, snip_comprehension_multi, snip_scoping, snip_scoping]
+            snip_comprehension, snip_comprehension, snip_comprehension_multi, snip_scoping, snip_scoping, snip_hierarchy]
 
 
 def first_diff_stmt(snip, r):
@@ -1794,7 +1987,7 @@ def run(ctx: Ctx):
     import time
     timing = {}
     for name, fn in (("binding", check_binding), ("split", check_split), ("boolop", check_boolop), ("chain", check_chain),
-                     ("binop", check_binop), ("cmp", check_cmp), ("directed", check_directed), ("comprehensions", check_comprehensions), ("scoping", check_scoping), ("programs", check_programs)):
+                     ("binop", check_binop), ("hierarchy", check_hierarchy), ("cmp", check_cmp), ("directed", check_directed), ("comprehensions", check_comprehensions), ("scoping", check_scoping), ("programs", check_programs)):
         t0 = time.time()
         fn(ctx)
         timing[name] = round(time.time() - t0, 1)
